@@ -44,7 +44,7 @@ OnDeliv ==
                   ELSE bad
     /\ UNCHANGED <<zombies, depth, noSuch>>
 OnHook ==
-    /\ (Ev.e = "Hook")
+    /\ (Ev.e = "Hook") /\ Ev.k # "prelaunch-spawn"
     /\ IF Ev.k = "restarted"
        THEN /\ bad' = IF Get(phase, Ev.a, "none") # "dead" THEN Flag("RestartBeforeOwnKilled") ELSE bad
             /\ phase' = Put(phase, Ev.a, "none")
@@ -60,8 +60,9 @@ OnHook ==
 (* is on top afterwards (0 = the actor's own OnReceive)                                                            *)
 OnBecome == /\ Ev.e = "Become" /\ depth' = Put(depth, Ev.a, Ev.n)
             /\ UNCHANGED <<bad, phase, awaitLaunch, lastInst, newInst, zombies, noSuch>>
-(* SpawnErr a: ActorOf returned an error for a (its OnPrelaunch failed): the actor never exists *)
-OnSpawnErr == /\ Ev.e = "SpawnErr" /\ noSuch' = noSuch \cup {Ev.a}
+(* Hook a prelaunch-spawn v=0: a's OnPrelaunch returned an error at its first spawn; SpawnErr a: ActorOf returned an *)
+(* error for a.  Either way the actor never exists.                                                                 *)
+OnSpawnErr == /\ (Ev.e = "SpawnErr" \/ (Ev.e = "Hook" /\ Ev.k = "prelaunch-spawn" /\ Ev.v = 0)) /\ noSuch' = noSuch \cup {Ev.a}
               /\ UNCHANGED <<bad, phase, awaitLaunch, lastInst, newInst, zombies, depth>>
 OnFindNoSuch == /\ Ev.e = "Find" /\ bad' = (IF Ev.v = 1 /\ Ev.a \in noSuch THEN Flag("FailedSpawnLeavesNoActor") ELSE bad)
                 /\ UNCHANGED <<phase, awaitLaunch, lastInst, newInst, zombies, depth, noSuch>>
